@@ -7,6 +7,8 @@ package util
 
 import (
 	"fmt"
+	"os"
+	"path/filepath"
 	"strings"
 	"sync"
 	"testing"
@@ -60,6 +62,20 @@ func TestVX_C19(t *testing.T) {
 	defer func() { rep.Count("stray-processes-killed", int64(sc.Close())) }()
 	cases := vcmd.Catalogue(sc.Dir)
 	guard := vcmd.Guard(30 * time.Second)
+	// environment of a desktop session: DISPLAY is set and the helpers of fan2go's desktop notification (who, id, sudo
+	// notify-send) exist but are slow (sudo hangs for a minute). A command call must keep its bound there too, i.e. it
+	// must not wait for a notification about the command's failure.
+	fake := filepath.Join(sc.Dir, "desktop-bin")
+	if err := os.MkdirAll(fake, 0o755); err != nil {
+		panic(err)
+	}
+	for name, body := range map[string]string{"who": "echo 'vxuser   :0   2026-01-01 00:00 (:0)'", "id": "echo 1234", "sudo": "exec sleep 60", "notify-send": "exec sleep 60"} {
+		if err := os.WriteFile(filepath.Join(fake, name), []byte("#!/bin/sh\n"+body+"\n"), 0o755); err != nil {
+			panic(err)
+		}
+	}
+	os.Setenv("PATH", fake+":"+os.Getenv("PATH"))
+	os.Setenv("DISPLAY", ":0")
 
 	var rc vcmd.Call
 	if mc.ReplayCase(&rc) {
@@ -106,6 +122,7 @@ func TestVX_C19(t *testing.T) {
 	}
 	rep.Sample(map[string]any{"site": "util.SafeCmdExecution", "case": "grandchild-holds-stdout", "script": "#!/bin/sh\nsleep 60 &\necho 42", "timeouts_s": []float64{0.2, 0.5, 2}})
 	rep.Sample(map[string]any{"site": "util.SafeCmdExecution", "case": "missing-interpreter", "script": "#!/nonexistent/verif-no-such-interpreter\necho 42", "timeouts_s": []float64{0.2, 0.5, 2}})
+	rep.Note("environment: DISPLAY=:0, and who/id/sudo/notify-send found first on PATH are stand-ins (sudo and notify-send hang for 60 s)")
 	rep.Note("catalogue: " + strings.Join(names, ", "))
 	rep.Note(fmt.Sprintf("real processes and wall clock; bound = timeout + %v; hang guard %v; cases run concurrently", vcmd.Margin, guard))
 }
